@@ -15,7 +15,8 @@ struct GenSource { left: usize, state: u64, reads: Rc<Cell<usize>>, pos: Rc<Cell
 impl Read for GenSource {
     fn read(&mut self, buf: &mut [u8]) -> std::io::Result<usize> {
         self.reads.set(self.reads.get() + 1);
-        let k = buf.len().min(self.left).min(self.maxread);
+        // maxread == 1 is the schedule "one byte less than asked" (reads that never line up with the chunk grid)
+        let k = if self.maxread == 1 { buf.len().saturating_sub(1).max(1).min(buf.len()).min(self.left) } else { buf.len().min(self.left).min(self.maxread) };
         for b in buf[..k].iter_mut() { self.state = self.state.wrapping_mul(6364136223846793005).wrapping_add(1442695040888963407); *b = (self.state >> 33) as u8; }
         self.left -= k; self.pos.set(self.pos.get() + k);
         Ok(k)
@@ -58,6 +59,7 @@ impl Prop for C11 {
             if mode == "pass" && sz > (64 << 20) { continue; }
             v.push(case(&[("mode", mode.into()), ("size", sz.to_string()), ("maxread", (if mr == usize::MAX { 0 } else { mr }).to_string()), ("seed", rng.next().to_string())]));
         } } }
+        for &sz in &[16usize << 20, 64 << 20] { v.push(case(&[("mode", "key".into()), ("size", sz.to_string()), ("maxread", "1".into()), ("seed", rng.next().to_string())])); }
         for dir in ["decrypt", "encrypt"] { for mode in ["key", "pass"] { for out in ["stdout", "file"] { v.push(case(&[("mode", format!("cli-{}", mode)), ("dir", dir.into()), ("out", out.into()), ("size", (if th { 256usize << 20 } else { 96 << 20 }).to_string()), ("seed", rng.next().to_string())])); } } }
         // the binary in a pipeline whose consumer stalls (input on standard input, output on standard output)
         for dir in ["encrypt", "decrypt"] { for mode in ["key", "pass"] { if th || (dir == "encrypt") == (mode == "key") { v.push(case(&[("mode", format!("pipe-{}", mode)), ("dir", dir.into()), ("size", (if th { 256usize << 20 } else { 96 << 20 }).to_string()), ("seed", rng.next().to_string())])); } } }
@@ -139,7 +141,7 @@ impl Prop for C11 {
         let bound = if keym { 1 << 20 } else { 40 << 20 };
         o.nontrivial = Some(format!("{}/{}/{}", get(c, "mode"), size, maxread)); o.tags.push(format!("{} {}MiB", get(c, "mode"), size >> 20));
         // ---- encrypt: generator -> kept ciphertext (allocated by the harness before the measurement; pre-sized) ----
-        let csz = maxread.min(65536);
+        let csz = if maxread == 1 { 65535 } else { maxread.min(65536) };
         let expect_len = hdr + size + 32 * (if size == 0 { 1 } else { size.div_ceil(csz) });
         let mut ct: Vec<u8> = Vec::with_capacity(expect_len + 64);
         let (pos, reads) = (Rc::new(Cell::new(0usize)), Rc::new(Cell::new(0usize)));
